@@ -187,6 +187,19 @@ Proof.
     exact (comment_events oracle (template_mids f) 0%nat 1 X Hind m).
 Qed.
 
+(* the count of emitted diagnostics never decreases along a run *)
+Lemma cnt_mono : forall evs st, (cnt st <= cnt (run_from st evs))%nat.
+Proof.
+  induction evs as [|ev evs IHe]; intros st; [unfold run_from; cbn [fold_left]; lia|]. rewrite run_from_cons.
+  specialize (IHe (run_step st ev)). rewrite run_step_spec in *. unfold step_spec in *.
+  destruct (hs_parsed st); [exact IHe|]. destruct (is_block_ev ev).
+  - destruct st as [a0 b0 h0 e0]. unfold cnt, count_code in *. cbn [hs_errs hs_header] in *. exact IHe.
+  - destruct (hs_started st).
+    + destruct (cnt_verdict st) as [Ev|Ev]; rewrite Ev in IHe; lia.
+    + destruct st as [a0 b0 h0 e0]. cbn [hs_header hs_errs] in IHe. rewrite cnt_emit in IHe.
+      unfold cnt, count_code in *. cbn [hs_errs hs_header] in *. lia.
+Qed.
+
 (* ------------------------------------------------------------------ C13, accept direction, at file level *)
 (* text = header ++ src, any src that the tokenizer accepts; ANY oracle for the primaries that agrees with the translated
    IsComment / IsPreprocessorStatement-prefix wherever they decide the turn (everything else - all other primaries, all
@@ -209,17 +222,8 @@ Proof.
   - (* fewer than eleven turns: a prefix of the header events, all block comments: nothing emitted *)
     assert (P : forall a b, count_code INVALID_HEADER (run_from ctx_init (a ++ b)) = 0%nat ->
                 count_code INVALID_HEADER (run_from ctx_init a) = 0%nat).
-    { intros a b H. pose proof (at_most_once (a ++ b)) as _. rewrite run_from_app in H.
-      destruct (Nat.eq_dec (count_code INVALID_HEADER (run_from ctx_init a)) 0) as [E|E]; [exact E|].
-      exfalso. apply E. clear E.
-      assert (M : forall evs st, (cnt st <= cnt (run_from st evs))%nat).
-      { induction evs as [|ev evs IHe]; intros st; [cbn; lia|]. rewrite run_from_cons.
-        specialize (IHe (run_step st ev)). rewrite run_step_spec in *. unfold step_spec in *.
-        destruct (hs_parsed st); [exact IHe|]. destruct (is_block_ev ev); [exact IHe|].
-        destruct (hs_started st).
-        - destruct (cnt_verdict st) as [Ev|Ev]; rewrite Ev in IHe; lia.
-        - destruct st as [a0 b0 h0 e0]. cbn [hs_header hs_errs] in *. rewrite cnt_emit in IHe. unfold cnt in *. cbn in *. lia. }
-      specialize (M b (run_from ctx_init a)). unfold cnt in M. lia. }
+    { intros a b H. rewrite run_from_app in H.
+      pose proof (cnt_mono b (run_from ctx_init a)) as M. unfold cnt in M. lia. }
     pose proof (Hev 0%nat) as H0. rewrite Nat.add_0_r in H0. cbn [events_range] in H0. rewrite app_nil_r in H0.
     unfold events_upto in *. replace 11%nat with (n + (11 - n))%nat in H0 by lia. rewrite events_range_split in H0.
     apply (P _ (events_range oracle _ (0 + n) (11 - n))). rewrite <- H0.
